@@ -36,14 +36,18 @@ Qed.
 
 Lemma read_bed_bed4 (t : list row) :
   Forall (fun r => bed_name_ok (fst (fst (fst r))) = true) t ->
+  Forall (fun r => bed_gene_ok r = true) t ->
   read_bed (write_bed4 t)
   = Some (sort_rows (map (fun r => (fst r, [nth 0 (snd r) bed_default_gene; bed_default_strand])) t)).
 Proof.
-  intros H. unfold read_bed, write_bed4.
+  intros H HG. unfold read_bed, write_bed4.
   rewrite bed_body_id by (apply bed_lines_ok; auto; intros [[[c s] e] ex]; reflexivity).
   rewrite (all_some_map_map bed4_line read_bed_line
              (fun r : row => (fst r, [nth 0 (snd r) bed_default_gene; bed_default_strand]))); [reflexivity|].
-  intros [[[c s] e] ex] _. cbn. rewrite !parse_print. now rewrite off_bed4_zero.
+  intros [[[c s] e] ex] Hin. rewrite Forall_forall in HG. specialize (HG _ Hin).
+  unfold bed_gene_ok in HG. apply String.eqb_eq in HG. cbn [snd] in HG.
+  unfold bed4_line, read_bed_line. cbn [coord_fields fst snd app nth]. rewrite !parse_print.
+  rewrite HG. now rewrite off_bed4_zero.
 Qed.
 
 Lemma name_ok_bed c : sniff_name_ok c = true -> bed_name_ok c = true.
@@ -67,11 +71,12 @@ Qed.
 Lemma auto_bed4 r t :
   sniff_row_ok r = true ->
   Forall (fun r => bed_name_ok (fst (fst (fst r))) = true) (r :: t) ->
+  Forall (fun r => bed_gene_ok r = true) (r :: t) ->
   sniff_lines None (write_bed4 (r :: t)) = Some (Fmt "bed") /\
   read_auto None (write_bed4 (r :: t))
   = AutoRows "bed" (sort_rows (map (fun r => (fst r, [nth 0 (snd r) bed_default_gene; bed_default_strand])) (r :: t))).
 Proof.
-  intros Hr H. apply sniff_row_ok_parts in Hr. destruct Hr as (Hc & Hs & He).
+  intros Hr H HG. apply sniff_row_ok_parts in Hr. destruct Hr as (Hc & Hs & He).
   assert (S : sniff_lines None (write_bed4 (r :: t)) = Some (Fmt "bed")).
   { unfold write_bed4. cbn [map]. apply sniff_lines_first.
     pose proof (sniff_bed4 r) as L. destruct r as [[[c s] e] ex]. cbn [fst snd] in *. auto. }
